@@ -302,6 +302,8 @@ func run(c *fw.Ctx) {
 			}
 		}
 	}
+	runE7(c, e, basic)
+	runE8(c)
 	// E6
 	c.Family("E6:eval-fragments", fmt.Sprintf("all ordered pairs of %d fragments through one Eval session", len(fragments)))
 	for _, f1 := range fragments {
